@@ -6,7 +6,6 @@ Provides the main parse_operations function to transform OpenAPI paths into IR o
 from __future__ import annotations
 
 import logging
-import warnings
 from typing import Any, List, Mapping, cast
 
 from pyopenapi_gen import HTTPMethod, IROperation, IRParameter, IRRequestBody, IRResponse
@@ -159,11 +158,8 @@ def parse_operations(
                     tags=list(node_op.get("tags", [])),
                 )
             except Exception as e:
-                warnings.warn(
-                    f"Skipping operation parsing for {method.upper()} {path}: {e}",
-                    UserWarning,
-                )
-                continue
+                # An operation that cannot be represented must not vanish from the client silently
+                raise ValueError(f"Cannot parse operation {str(method).upper()} {path}: {e}") from e
             else:
                 # Post-process the parsed operation to fill in schema names
                 post_process_operation(op, context)
